@@ -314,6 +314,8 @@ func (cs c17Case) sig(msg string) string {
 	switch cs.Section {
 	case "range":
 		return fmt.Sprintf("c17:range:%s:%s:%s:%d-%d:%s", cs.Backend, cs.Store.Hash, cs.Store, cs.Low, cs.High, msg)
+	case "deep":
+		return fmt.Sprintf("c17:deep:%s:%s:%s:%s", cs.Backend, cs.Store.Hash, strings.Join(cs.Subset, ";"), msg)
 	case "transfer":
 		return fmt.Sprintf("c17:transfer:%s>%s:wire=%v:%s:%s:keys=%s:%s", cs.Backend, cs.Dest, cs.Wire, cs.Store.Hash, cs.Store, strings.Join(cs.Subset, "+"), msg)
 	}
@@ -429,10 +431,10 @@ func c17(c *report.Check) {
 		// kinds; the other keys get all kinds (c, thorough) or a reduced set (boundary keys)
 		all := []int{0, 1, 2, 3, 4, 5, 6}
 		universe := []string{"a", "ab", "c", "z"}
-		kindsOf := [][]int{all, all, {0, 1, 4}, {0, 5, 6}}
+		kindsOf := [][]int{all, all, {0, 4, 6}, {0, 6}}
 		if c.Thorough() {
 			universe = append(universe, "o")
-			kindsOf = [][]int{all, all, all, {0, 1, 5, 6}, {0, 1, 4, 6}}
+			kindsOf = [][]int{all, all, all, {0, 1, 5, 6}, {0, 1, 6}}
 		}
 		nStores := 1
 		for _, ks := range kindsOf {
@@ -608,7 +610,32 @@ func c17(c *report.Check) {
 	for _, m := range internal {
 		c.Internal(m)
 	}
-	c.Set("evaluations", nRange+nTransfer+nRemove)
+	// ---- deep single-key paths (full enumeration, no de-duplication)
+	type plan = struct {
+		Ops            []string
+		MinLen, MaxLen int
+	}
+	deepHashes := hashModes[:1]
+	plans := []plan{{deepOpsAll, 1, 4}, {deepOpsNoLease, 5, 6}}
+	if c.Thorough() {
+		deepHashes = hashModes
+		plans = []plan{{deepOpsAll, 1, 6}, {deepOpsNoLease, 7, 7}}
+	}
+	ds := c17Deep(c, dist, deepHashes[:1], plans)
+	if len(deepHashes) > 1 { // chord.Hash: only the position of the key's hash changes; shorter enumeration
+		d2 := c17Deep(c, dist, deepHashes[1:], []plan{{deepOpsAll, 1, 5}})
+		ds.Paths += d2.Paths
+		ds.Runs += d2.Runs
+		ds.Explained += d2.Explained
+		for k, v := range d2.ByAlphabet {
+			ds.ByAlphabet[k] = v
+		}
+	}
+	c.Set("deep_single_key_paths", ds.Paths)
+	c.Set("deep_single_key_store_runs", ds.Runs)
+	c.Set("deep_single_key_paths_by_length", ds.ByAlphabet)
+	c.Set("deep_failing_paths_explained_by_reported_minimal_path", ds.Explained)
+	c.Set("evaluations", nRange+nTransfer+nRemove+ds.Runs)
 	c.Set("rangekeys_queries", nRange)
 	c.Set("export_import_cases", nTransfer)
 	c.Set("removekeys_cases", nRemove)
@@ -618,7 +645,7 @@ func c17(c *report.Check) {
 	c.Set("distinct_nontrivial", dist.N())
 	c.Set("samples", dist.Samples)
 	c.Set("exhaustive", true)
-	c.Set("rule", "for each hash function {degenerate (a,ab->5; c->9; z->2^48-1; o->0), chord.Hash} and each backend: every assignment of content kinds {none, simple, children, lease, populated-then-emptied, empty value, all three} to the keys (quick: a,ab all 7 kinds, c {none,simple,emptied}, z {none,empty value,all}; thorough: a,ab,c all 7 kinds, z {none,simple,empty value,all}, o {none,simple,emptied,all}), built through the real API; (1) RangeKeys(low,high) for every pair over {hashes present, +-1, 0, 2^48-1}; (2) Export of {keys with content} and of {all keys} -> direct and protobuf-encoded -> Import into an empty store of each backend (9 pairs), destination content, listings and lease token compared, source unchanged; (3) RemoveKeys of every subset of <= 3 keys, full content compared; class = (range kind, number of keys returned) / number of populated keys")
+	c.Set("rule", "for each hash function {degenerate (a,ab->5; c->9; z->2^48-1; o->0), chord.Hash} and each backend: every assignment of content kinds {none, simple, children, lease, populated-then-emptied, empty value, all three} to the keys (quick: a,ab all 7 kinds, c {none,emptied,all}, z {none,all}; thorough: a,ab,c all 7 kinds, z {none,simple,empty value,all}, o {none,simple,all}), built through the real API (sections 1-3); section 4 (deep single-key paths, no de-duplication): every operation sequence on ONE key used in all keyspaces over {put v1, delete, append x, append y, remove x, remove y, acquire lease, release lease} of length 1..4 (quick) / 1..6 (thorough), and over the six non-lease operations of length 5..6 / 7, on each backend (degenerate hash; thorough also chord.Hash with all eight operations to length 5), after every path ListKeys(\"\") kinds, RangeKeys over (0,0) / a range containing / not containing / wrapping around to the key's hash, Export, Get, PrefixList compared with the model, then RemoveKeys([k]) must leave nothing; (1) RangeKeys(low,high) for every pair over {hashes present, +-1, 0, 2^48-1}; (2) Export of {keys with content} and of {all keys} -> direct and protobuf-encoded -> Import into an empty store of each backend (9 pairs), destination content, listings and lease token compared, source unchanged; (3) RemoveKeys of every subset of <= 3 keys, full content compared; class = (range kind, number of keys returned) / number of populated keys")
 	c.Assume("hash values lie in the chord identifier space [0, 2^48) (sqlite stores hashes as signed 64-bit integers)",
 		"a key whose only content is Put(k, []byte{}) is undecided for RangeKeys membership and for the SIMPLE entry of ListKeys: C16's statement treats an empty value as absent, the repository's TestEmptyValueTransferRoundTrip pins that such a key is listed and transferred by sqlite; it must still never be listed outside the range; what each backend does is recorded in empty_value_only_keys_listed_by_rangekeys_0_0",
 		"simple values compared with empty == absent",
@@ -647,6 +674,16 @@ func c17Replay(c *report.Check, raw []byte) {
 			return
 		}
 		defer dst.close()
+	}
+	if cs.Section == "deep" {
+		divs, _, err := deepRun(src, cs.Subset)
+		if err != nil {
+			c.Internal(err.Error())
+		}
+		for _, d := range divs {
+			c.Violation(cs.sig(d[0]), d[1], cs)
+		}
+		return
 	}
 	if msg := c17RunCase(cs, src, dst); msg != "" {
 		c.Violation(cs.sig(msg), msg, cs)
